@@ -56,6 +56,8 @@ class ControlledPool:
     def close(self): pass
     def join(self): pass
     def terminate(self): pass
+    def clear(self): pass          # pathos: forget the cached worker processes
+    def restart(self, *a, **k): pass
     def __enter__(self): return self
     def __exit__(self, *a): return False
 
@@ -137,7 +139,9 @@ class SpawnPoolN:
         self.n = n
 
     def __call__(self, *a, **k):
-        return multiprocessing.get_context("spawn").Pool(self.n)
+        p = multiprocessing.get_context("spawn").Pool(self.n)
+        p.clear = lambda: None          # (the pathos call chef makes on its own pools)
+        return p
 
 
 class RealPoolN:
@@ -146,4 +150,6 @@ class RealPoolN:
         self.n = n
 
     def __call__(self, *a, **k):
-        return _REAL_POOL(self.n)
+        p = _REAL_POOL(self.n)
+        p.clear = lambda: None          # (the pathos call chef makes on its own pools)
+        return p
